@@ -361,7 +361,10 @@ func c39(r *Run) {
 	okk = inner != nil && outer != nil && len(app) == 1
 	if okk {
 		// the append happens on every path that leaves the inner loop normally (its exhausted exit)
-		okk = hasMatch(app[0].Conds(), "builtin.len(phi(*)) <= (1 + phi(-1, ↺))") || len(app[0].Conds()) >= 1
+		isOuter := func(i ssa.Instruction) bool { return i.Block() == outer && instrIndex(i) == 0 }
+		if found, _ := pathExists(point{inner.Succs[1], 0}, isOuter, isInstr(app[0].Ins), nil); found || len(inner.Succs) != 2 {
+			okk = false
+		}
 		// and the false return needs the outer loop exhausted
 		for _, o := range falseRets {
 			f2, _ := pathExists(entry(f), isInstr(o.Ret), nil, map[edgeKey]bool{{outer.Index, 1}: true})
